@@ -678,32 +678,41 @@ pub fn tree(cap: usize, end: &str, depth: usize, maxf_op: usize, maxf_hist: usiz
 }
 
 /// C19, independently: on a failure-free history the buffered datagrams are exactly the in-order
-/// greedy packing of the accepted fitting metrics between forced boundaries (flush, drop).
+/// greedy packing of the accepted fitting metrics between boundaries. A flush and the drop are forced
+/// boundaries. An emit whose metric does not fit an empty buffer is an *optional* one: the statement
+/// lets a sink write "during an emit whose metric plus terminator does not fit in the space remaining",
+/// so sending what is buffered before the oversize metric (instead of after it, as the code does today)
+/// is as conforming as keeping it; every choice of those optional boundaries is accepted.
 fn greedy_check(cap: usize, end: &str, hist: &[Op], model: &Model) -> Option<String> {
-    let mut groups: Vec<Vec<usize>> = vec![vec![]];
-    for op in hist {
-        match op {
-            Op::Emit(l, _) => {
-                if l + end.len() <= cap {
-                    groups.last_mut().unwrap().push(*l);
+    let oversize_at: Vec<usize> = hist.iter().enumerate().filter(|(_, op)| matches!(op, Op::Emit(l, _) if l + end.len() > cap)).map(|(i, _)| i).collect();
+    let got: Vec<usize> = model.datagrams.iter().filter(|d| !d.1).map(|d| d.0.len()).collect();
+    let k = oversize_at.len().min(12);
+    let mut wants: Vec<Vec<usize>> = vec![];
+    for mask in 0..(1u32 << k) {
+        let mut groups: Vec<Vec<usize>> = vec![vec![]];
+        for (i, op) in hist.iter().enumerate() {
+            match op {
+                Op::Emit(l, _) => {
+                    if l + end.len() <= cap {
+                        groups.last_mut().unwrap().push(*l);
+                    } else if let Some(j) = oversize_at.iter().position(|x| *x == i) {
+                        if j < k && mask & (1 << j) != 0 {
+                            groups.push(vec![]);
+                        }
+                    }
                 }
+                Op::Flush(_) => groups.push(vec![]),
             }
-            Op::Flush(_) => groups.push(vec![]),
+        }
+        let want: Vec<usize> = Model::greedy_pack(cap, end.len(), &groups).iter().map(|d| d.iter().map(|l| l + end.len()).sum()).collect();
+        if want == got {
+            return None;
+        }
+        if !wants.contains(&want) {
+            wants.push(want);
         }
     }
-    let want: Vec<usize> = Model::greedy_pack(cap, end.len(), &groups)
-        .iter()
-        .map(|d| d.iter().map(|l| l + end.len()).sum())
-        .collect();
-    let got: Vec<usize> = model.datagrams.iter().filter(|d| !d.1).map(|d| d.0.len()).collect();
-    if want != got {
-        Some(format!(
-            "buffered datagram sizes {:?} differ from in-order greedy packing {:?}",
-            got, want
-        ))
-    } else {
-        None
-    }
+    Some(format!("buffered datagram sizes {:?} differ from every in-order greedy packing {:?}", got, wants))
 }
 
 /// Replay a violation document; prints what happened and returns whether it still violates.
